@@ -201,8 +201,32 @@ def model_axis(ctx, obs, rule='MODEL-AXIS'):
                 return known[0]
             return None
 
+        def single_model_reads(st):
+            """`x[:, 0]` with the constant on the model axis of a tracked array: one particular model is singled out"""
+            nonlocal n
+            header = [st.value] if isinstance(st, (ast.Assign, ast.AugAssign, ast.Return, ast.Expr)) and st.value is not None else \
+                [st.test] if isinstance(st, (ast.If, ast.While)) else []
+            for h in header:
+                for e in ast.walk(h):
+                    if not (isinstance(e, ast.Subscript) and isinstance(e.ctx, ast.Load)):
+                        continue
+                    p0 = src_pos(e.value)
+                    if p0 is None:
+                        continue
+                    items = list(e.slice.elts) if isinstance(e.slice, ast.Tuple) else [e.slice]
+                    if len(items) <= p0 or any(isinstance(x, ast.Constant) and x.value is Ellipsis for x in items[:p0 + 1]):
+                        continue
+                    it = items[p0]
+                    if isinstance(it, ast.Constant) and isinstance(it.value, int) and not isinstance(it.value, bool):
+                        n += 1
+                        obs.bad(rule, q, 'no single model stands for all models (outputs permute with the models)',
+                                f'`{norm(e)[:50]}` reads model {it.value} only, in `{norm(st)[:70]}`: what is computed for every model then depends '
+                                f'on which model happens to be listed at that position (a NaN evaluation of that model removes samples '
+                                f'for all models; NaNs of the other models are not handled)', where(prog, f, e))
+
         def walk(stmts):
             for st in stmts:
+                single_model_reads(st)
                 if isinstance(st, ast.Assign) and len(st.targets) == 1 and isinstance(st.targets[0], ast.Name):
                     v = st.value
                     t = st.targets[0].id
